@@ -4332,7 +4332,8 @@ func (p *Posix) CopyObject(ctx context.Context, input s3response.CopyObjectInput
 					return nil, fmt.Errorf("initialize hash reader: %w", err)
 				}
 
-				_, err = hashReader.Read(nil)
+				// the checksum of the object's data (all of it)
+				_, err = io.Copy(io.Discard, hashReader)
 				if err != nil {
 					return nil, fmt.Errorf("read err: %w", err)
 				}
@@ -4377,7 +4378,21 @@ func (p *Posix) CopyObject(ctx context.Context, input s3response.CopyObjectInput
 		}
 		version = backend.GetPtrFromString(string(vId))
 
-		// Store the provided object meta properties
+		// The provided object meta properties replace the stored ones: what
+		// the request does not supply is removed
+		for hdr, v := range map[string]*string{
+			contentTypeHdr: input.ContentType, contentEncHdr: input.ContentEncoding,
+			contentLangHdr: input.ContentLanguage, contentDispHdr: input.ContentDisposition,
+			cacheCtrlHdr: input.CacheControl, expiresHdr: input.Expires,
+		} {
+			if getString(v) != "" {
+				continue
+			}
+			err := p.meta.DeleteAttribute(dstBucket, dstObject, hdr)
+			if err != nil && !errors.Is(err, meta.ErrNoSuchKey) {
+				return nil, fmt.Errorf("delete %v: %w", hdr, err)
+			}
+		}
 		err = p.storeObjectMetadata(nil, dstBucket, dstObject,
 			objectMetadata{
 				ContentType:        input.ContentType,
